@@ -41,29 +41,29 @@ impl GraphStatistics {
         }
         let mut pos = 0;
 
-        let total_nodes = u64::from_le_bytes(bytes[pos..pos + 8].try_into().ok()?);
+        let total_nodes = u64::from_le_bytes(bytes.get(pos..pos + 8)?.try_into().ok()?);
         pos += 8;
-        let total_edges = u64::from_le_bytes(bytes[pos..pos + 8].try_into().ok()?);
+        let total_edges = u64::from_le_bytes(bytes.get(pos..pos + 8)?.try_into().ok()?);
         pos += 8;
 
-        let node_len = u32::from_le_bytes(bytes[pos..pos + 4].try_into().ok()?) as usize;
+        let node_len = u32::from_le_bytes(bytes.get(pos..pos + 4)?.try_into().ok()?) as usize;
         pos += 4;
         let mut node_counts_by_label = BTreeMap::new();
         for _ in 0..node_len {
-            let label = LabelId::from_le_bytes(bytes[pos..pos + 4].try_into().ok()?);
+            let label = LabelId::from_le_bytes(bytes.get(pos..pos + 4)?.try_into().ok()?);
             pos += 4;
-            let count = u64::from_le_bytes(bytes[pos..pos + 8].try_into().ok()?);
+            let count = u64::from_le_bytes(bytes.get(pos..pos + 8)?.try_into().ok()?);
             pos += 8;
             node_counts_by_label.insert(label, count);
         }
 
-        let edge_len = u32::from_le_bytes(bytes[pos..pos + 4].try_into().ok()?) as usize;
+        let edge_len = u32::from_le_bytes(bytes.get(pos..pos + 4)?.try_into().ok()?) as usize;
         pos += 4;
         let mut edge_counts_by_type = BTreeMap::new();
         for _ in 0..edge_len {
-            let rel = RelTypeId::from_le_bytes(bytes[pos..pos + 4].try_into().ok()?);
+            let rel = RelTypeId::from_le_bytes(bytes.get(pos..pos + 4)?.try_into().ok()?);
             pos += 4;
-            let count = u64::from_le_bytes(bytes[pos..pos + 8].try_into().ok()?);
+            let count = u64::from_le_bytes(bytes.get(pos..pos + 8)?.try_into().ok()?);
             pos += 8;
             edge_counts_by_type.insert(rel, count);
         }
